@@ -118,6 +118,8 @@ func respVerifies(r, req, secret []byte) bool {
 type dg struct {
 	Kind string
 	B    []byte
+	// datagrams the listener receives from the same source address and port immediately before B
+	Prior [][]byte
 }
 
 func attr(t byte, v []byte) []byte {
@@ -225,7 +227,7 @@ func wrongSecrets(s []byte) [][]byte {
 // mutationsOf yields the datagrams derived from one correctly signed request.
 func mutationsOf(base, secret []byte, rng *rand.Rand, thorough bool, byteChanges bool) []dg {
 	var out []dg
-	add := func(kind string, b []byte) { out = append(out, dg{kind, b}) }
+	add := func(kind string, b []byte) { out = append(out, dg{Kind: kind, B: b}) }
 	n := len(base)
 	add("valid", clone(base))
 	add("valid-duplicate", clone(base))
@@ -364,7 +366,7 @@ func mutationsOf(base, secret []byte, rng *rand.Rand, thorough bool, byteChanges
 
 func globalDatagrams(bases [][]byte, secret []byte, rng *rand.Rand, nrandom int) []dg {
 	var out []dg
-	add := func(kind string, b []byte) { out = append(out, dg{kind, b}) }
+	add := func(kind string, b []byte) { out = append(out, dg{Kind: kind, B: b}) }
 	// every code and every identifier, correctly signed
 	for _, base := range bases[:2] {
 		for c := 0; c < 256; c++ {
@@ -478,4 +480,68 @@ func concretise(c absClass, secret []byte, rng *rand.Rand) ([]byte, error) {
 		return nil, fmt.Errorf("class %+v concretised to %+v (%s)", c, got, hex.EncodeToString(b[:min(len(b), 24)]))
 	}
 	return b, nil
+}
+
+// pairDatagrams are datagrams judged in the position "directly after another datagram from the same
+// source": the statement quantifies over every datagram, whatever the listener has seen before, and
+// a listener that remembers anything per source (retransmission cache, rate limiter, replay window)
+// is only exercised by adjacent datagrams from one socket. The datagram under test is judged on its
+// own, by the same decision contract; the priors are authentic requests the listener answers.
+func pairDatagrams(bases [][]byte, secret []byte, rng *rand.Rand, full bool) []dg {
+	var out []dg
+	withID := func(b []byte, id byte) []byte { // b re-identified and re-signed
+		c := clone(b)
+		c[1] = id
+		signAs(c, len(c), secret)
+		return c
+	}
+	n := len(bases)
+	if !full && n > 3 {
+		n = 3
+	}
+	for i := 0; i < n; i++ {
+		first := bases[i]
+		id := first[1]
+		// the exact retransmission: still a complete authentic packet, still answered
+		out = append(out, dg{"pair:retransmit", clone(first), [][]byte{first}})
+		for j := 0; j < n; j++ {
+			if j == i {
+				continue
+			}
+			// a DIFFERENT authentic request that reuses the identifier (identifier space wrapped,
+			// or the client numbers per code)
+			out = append(out, dg{"pair:same-id", withID(bases[j], id), [][]byte{first}})
+		}
+		// same request re-signed after an attribute was added (same id, other authenticator)
+		more := packet(first[0], id, cat(first[20:], attr(18, []byte("again"))), secret)
+		out = append(out, dg{"pair:same-id-more-attrs", more, [][]byte{first}})
+		// forged variants directly after the authentic original: same id, authenticator off by a bit /
+		// signed with a near-miss secret / body changed under the original authenticator
+		f1 := clone(first)
+		f1[4+rng.Intn(16)] ^= 1 << uint(rng.Intn(8))
+		out = append(out, dg{"pair:forged-auth-bit", f1, [][]byte{first}})
+		f2 := clone(first)
+		signAs(f2, len(f2), wrongSecrets(secret)[0])
+		out = append(out, dg{"pair:forged-wrong-secret", f2, [][]byte{first}})
+		if len(first) > 22 {
+			f3 := clone(first)
+			f3[len(f3)-1] ^= 0x01
+			out = append(out, dg{"pair:forged-body", f3, [][]byte{first}})
+		}
+		f4 := clone(bases[(i+1)%n])
+		f4[1] = id // other request, identifier overwritten without re-signing
+		out = append(out, dg{"pair:forged-id-overwritten", f4, [][]byte{first}})
+		// truncated copy of the original right after it
+		out = append(out, dg{"pair:truncated", clone(first[:len(first)-1]), [][]byte{first}})
+		// two priors: the identifier comes round again after another request in between
+		out = append(out, dg{"pair:same-id-after-two", withID(bases[(i+1)%n], id), [][]byte{first, withID(bases[(i+2)%n], id+1)}})
+		// every identifier once directly after the original (the cache key space), code swapped
+		if full && i < 2 {
+			other := bases[1-i]
+			for k := 0; k < 256; k += 17 {
+				out = append(out, dg{"pair:id-sweep", withID(other, byte(k)), [][]byte{withID(first, byte(k))}})
+			}
+		}
+	}
+	return out
 }
